@@ -43,6 +43,7 @@ inductive SAct
   | despawn (e : Ref)
   | despawnRec (e : Ref)
   | ewrAdd (wr : Nat) (e : Ref) (v : Nat)
+  | ewrAddNow (wr : Nat) (e : Ref) (v : Nat)
   | ewrRemove (wr : Nat) (trigs : List STrig)
   | wrAdd (wr : Nat) (trigs : List STrig)
   | wrRemove (wr : Nat) (trigs : List STrig)
@@ -138,6 +139,7 @@ def parseAct (toks : List String) : Option SAct :=
   | ["despawn", e] => (parseRef e).map .despawn
   | ["despawnrec", e] => (parseRef e).map .despawnRec
   | ["ewradd", wr, e, v] => do pure (.ewrAdd (← wr.toNat?) (← parseRef e) (← v.toNat?))
+  | ["ewraddnow", wr, e, v] => do pure (.ewrAddNow (← wr.toNat?) (← parseRef e) (← v.toNat?))
   | "ewrremove" :: wr :: ts => do pure (.ewrRemove (← wr.toNat?) (← parseTrigs ts))
   | "wradd" :: wr :: ts => do pure (.wrAdd (← wr.toNat?) (← parseTrigs ts))
   | "wrremove" :: wr :: ts => do pure (.wrRemove (← wr.toNat?) (← parseTrigs ts))
@@ -278,6 +280,7 @@ def resolveAct (sc : Scenario) (s : St) : SAct → Option Act
   | .despawn r => (resolveRef s r).bind (fun e => if pendingSystem s e then none else some (Act.despawn e))
   | .despawnRec r => (resolveRef s r).bind (fun e => if pendingSystem s e then none else some (Act.despawnRec e))
   | .ewrAdd wr r v => if wr < sc.ewrs.length then (resolveRef s r).map (Act.ewrAdd wr · v) else none
+  | .ewrAddNow wr r v => if wr < sc.ewrs.length then (resolveRef s r).map (Act.ewrAddNow wr · v) else none
   | .ewrRemove wr ts => if wr < sc.ewrs.length then (resolveTrigs s ts).map (Act.ewrRemove wr) else none
   | .wrAdd wr ts => if wr < sc.wrs.length then (resolveTrigs s ts).map (Act.wrAdd wr) else none
   | .wrRemove wr ts => if wr < sc.wrs.length then (resolveTrigs s ts).map (Act.wrRemove wr) else none
@@ -302,6 +305,18 @@ def indexOf? (l : List Nat) (x : Nat) : Option Nat := findIdx' (· == x) l 0
 
 def topOwner (t : Nat) : Nat := 1000000 + t
 
+/-- `EntityReactor::add` can be called by the body itself only where the system can take the `EntityReactor<T>` parameter: not
+    in an exclusive system and not in the entity world reactor `T` itself (its `EntityLocal<T>` already holds it). Elsewhere
+    the scripted `ewraddnow` is the queued form (`EntityCommands::add_world_reactor`), as in the harness. -/
+def demoteNow (s : St) (sys : Nat) : Act → Act
+  | .ewrAddNow wr e v => if (s.info sys).excl || s.ewrSys wr == sys then .ewrAdd wr e v else .ewrAddNow wr e v
+  | a => a
+
+/-- A top-level batch has no `EntityReactor` parameter: there `ewraddnow` is always the queued form. -/
+def demoteTop : Act → Act
+  | .ewrAddNow wr e v => .ewrAdd wr e v
+  | a => a
+
 /-- The program a scenario denotes. -/
 def Scenario.prog (sc : Scenario) : Prog := fun sys i s =>
   let inf := s.info sys
@@ -311,7 +326,7 @@ def Scenario.prog (sc : Scenario) : Prog := fun sys i s =>
   | some df =>
     match df.runs[run]? with
     | none => none
-    | some script => scriptAt sc s script ((indexOf? s.sysNames sys).getD 999999) run i
+    | some script => (scriptAt sc s script ((indexOf? s.sysNames sys).getD 999999) run i).map (demoteNow s sys)
 
 def resolveTop (s : St) : STop → Option TopOp
   | .acts _ => some .acts
@@ -340,7 +355,7 @@ def Scenario.hist (sc : Scenario) : Hist where
     | some st => some ((resolveTop s st).getD .acts)
   act := fun t i s =>
     match sc.tops[t]? with
-    | some (.acts script) => scriptAt sc s script (topOwner t) 0 i
+    | some (.acts script) => (scriptAt sc s script (topOwner t) 0 i).map demoteTop
     | _ => none
 
 /-- Spawns world reactor number `acc.2` (of the kind `isEwr` says) from definition `d`: a system command with its callback
@@ -416,6 +431,11 @@ def showHandle (s : St) (h : Handle) : String :=
   match h.arc with
   | none => showName s h.sys
   | some a => s!"{showName s h.sys}:{s.arcRc a}"
+
+/-- The systems made by `ReactCommands::once` so far (printed once, at the end of the trace: the C15 specification on the
+    implementation's trace needs to know which systems are one-off reactors). -/
+def showOnces (s : St) : String :=
+  "onces" ++ String.join ((s.sysNames.filter (fun e => ((s.info e).once).isSome)).map (fun e => " " ++ showName s e))
 
 /-- The quiescent snapshot lines (compared with the hook snapshot of the implementation). -/
 def showQuiescent (s : St) : List String :=
